@@ -54,6 +54,8 @@ pub enum ROp {
 	/// make a probe sound finish (`MainSound` / `TrackSound`)
 	Finish(K, usize),
 	Callback { frames: usize },
+	/// play a sound whose `into_sound` fails (`MainSound` / `TrackSound`): an error, and no slot is used up
+	PlayFailing(K, usize),
 }
 
 #[derive(Clone, Debug, Serialize, Deserialize)]
@@ -92,6 +94,7 @@ fn gen_case(seed: u64, index: u64, tier: Tier) -> Case {
 					0..=3 => ROp::Create(k, rng.usize_below(6)),
 					4..=5 => ROp::Drop(k, rng.usize_below(8)),
 					6 => ROp::Finish(if rng.chance(0.5) { K::MainSound } else { K::TrackSound }, rng.usize_below(8)),
+					7 if rng.chance(0.35) => ROp::PlayFailing(if rng.chance(0.5) { K::MainSound } else { K::TrackSound }, rng.usize_below(6)),
 					_ => ROp::Callback { frames: rng.urange(0, 30) },
 				};
 				ops.push(op);
@@ -347,6 +350,34 @@ fn run_ops(case: &Case, caps: &[usize; 7], ops: &[ROp]) -> CaseResult {
 						}
 					}
 				}
+			}
+			ROp::PlayFailing(k, sel) => {
+				let tracks: Vec<(usize, usize)> = (0..arenas.len())
+					.filter(|a| matches!(arenas[*a].kind, K::SubTrack | K::NestedTrack))
+					.flat_map(|a| (0..arenas[a].items.len()).map(move |i| (a, i)))
+					.filter(|(a, i)| track_alive(&arenas, *a, *i))
+					.collect();
+				let parent = if *k == K::MainSound || tracks.is_empty() { None } else { Some(tracks[*sel % tracks.len()]) };
+				let r = monitor::catch(|| match parent {
+					None => manager.play(FailingSoundData).is_err(),
+					Some((a, i)) => match arenas[a].items[i].handle.as_mut() {
+						Some(Res::Track(h)) => h.play(FailingSoundData).is_err(),
+						_ => unreachable!(),
+					},
+				});
+				match r {
+					Ok(true) => res.hit("failed_into_sound_plays"),
+					Ok(false) => {
+						res.fail(Violation::new("capacity-accounting", "failing-sound-accepted", format!("op {oi}: playing a sound whose into_sound() fails returned Ok")));
+						break 'ops;
+					}
+					Err(p) => {
+						res.fail(Violation::new("no-panic", format!("creation-panicked: {}", panic_signature(&p)), format!("op {oi}: playing a sound whose into_sound() fails panicked: {p}")));
+						break 'ops;
+					}
+				}
+				// (nothing was created: the model does not change, so a slot used up by the failed
+				// play shows up in the counts below and in later creations)
 			}
 			ROp::Drop(k, sel) => {
 				let a_sel: Vec<usize> = (0..arenas.len()).filter(|a| arenas[*a].kind == *k).collect();
